@@ -186,7 +186,7 @@ func (v *VerifC15) AddTransportServer(ts *conf_v1.TransportServer) []VerifC15Pro
 	return verifC15Outcome(v.Lbc.configuration.AddOrUpdateTransportServer(ts))
 }
 
-// AddListener installs a GlobalConfiguration with one TCP listener so that TransportServers are admitted.
+// AddGlobalConfiguration installs a GlobalConfiguration (its listeners admit TransportServers).
 func (v *VerifC15) AddGlobalConfiguration(gc *conf_v1.GlobalConfiguration) []VerifC15Problem {
 	ch, pr, err := v.Lbc.configuration.AddOrUpdateGlobalConfiguration(gc)
 	out := verifC15Outcome(ch, pr)
